@@ -19,7 +19,7 @@ pub struct Desc {
     pub entry: String, // "verb" (Http::get(&str) ...) | "request" (Http::request(Method, Url))
     pub method: String,
     pub url: String,
-    pub split: usize, // cap only: ops[split..] are applied to the Request inside a middleware
+    pub split: usize, // ops[split..] are applied to the Request itself, inside a per-request middleware
     pub ops: Vec<Op>,
 }
 
@@ -241,10 +241,15 @@ pub fn play_cmd(d: &Desc) -> Result<Vec<HttpRequest>, String> {
             m => panic!("harness: no verb entry for {m}"),
         }
     };
-    for op in &d.ops { b = apply_builder!(b, op)?; }
+    for op in &d.ops[..d.split] { b = apply_builder!(b, op)?; }
+    let cell = Arc::new(std::sync::Mutex::new(None));
+    if d.split < d.ops.len() { b = b.middleware(capapp::Stage2(d.ops[d.split..].to_vec(), cell.clone())); }
     let mut cmd: Command<CmdEffect, CmdEvent> = b.build().then_send(CmdEvent::Done);
     let effs: Vec<CmdEffect> = cmd.effects().collect();
-    Ok(effs.into_iter().map(|CmdEffect::Http(r)| r.operation.clone()).collect())
+    let reqs: Vec<HttpRequest> = effs.into_iter().map(|CmdEffect::Http(r)| r.operation.clone()).collect();
+    let refused = cell.lock().unwrap().clone();
+    if let Some(e) = refused { return if reqs.is_empty() { Err(e) } else { Err(format!("refused but {} request(s) sent: {e}", reqs.len())) }; }
+    Ok(reqs)
 }
 
 // ---- capability API through a real Core
@@ -508,7 +513,7 @@ pub fn gen_valid(r: &mut Rng) -> Desc {
     let nb = match r.below(10) { 0 => 0, 1 => r.range(12, 40), _ => r.below(8) };
     let mut ops: Vec<Op> = (0..nb).map(|_| builder_op(r)).collect();
     let split = ops.len();
-    if api == "cap" && r.coin(2, 3) { for _ in 0..r.range(1, 10) { ops.push(request_op(r)); } }
+    if r.coin(2, 3) { for _ in 0..r.range(1, 10) { ops.push(request_op(r)); } }
     // valid stream: keep everything ASCII where the API demands it
     Desc { api: api.into(), entry: entry.into(), method, url, split, ops }
 }
@@ -522,9 +527,9 @@ pub fn gen_malformed(r: &mut Rng) -> Desc {
         2 => { let op = Op::Header { name: "X-Name".into(), values: vec![r.pick(&["é", "naïve", "日本", "a\u{80}b"]).to_string()], form: r.pick(&["str", "string"]).to_string() }; let at = r.below(d.split as u64 + 1) as usize; d.ops.insert(at, op); d.split += 1; }
         3 => { let op = Op::ContentType { mime: r.pick(&["", "nonsense", "text/", "/plain", "text/pl ain"]).to_string() }; let at = r.below(d.split as u64 + 1) as usize; d.ops.insert(at, op); d.split += 1; }
         4 => { let kind = *r.pick(&["json_bad", "form_bad"]); let op = Op::Body { kind: kind.into(), hex: String::new(), json: None, pairs: None };
-               if d.api == "cap" && r.coin(1, 2) { d.ops.push(op) } else { let at = r.below(d.split as u64 + 1) as usize; d.ops.insert(at, op); d.split += 1; } }
+               if r.coin(1, 2) { d.ops.push(op) } else { let at = r.below(d.split as u64 + 1) as usize; d.ops.insert(at, op); d.split += 1; } }
         _ => { let op = Op::Query { kind: "bad".into(), pairs: vec![], page: 0, q: String::new(), tags: vec![] };
-               if d.api == "cap" && r.coin(1, 2) { d.ops.push(op) } else { let at = r.below(d.split as u64 + 1) as usize; d.ops.insert(at, op); d.split += 1; } }
+               if r.coin(1, 2) { d.ops.push(op) } else { let at = r.below(d.split as u64 + 1) as usize; d.ops.insert(at, op); d.split += 1; } }
     }
     d
 }
